@@ -500,6 +500,9 @@ func runCase(p *PackageSpec, prop string, scn int, race bool, tag string, replay
 		// so that more tasks than the default limit can be runnable at once
 		gm := []string{"2", "3", "16", "1"}[rapidSeedFor(p, tag)%4]
 		cmd.Env = append(cmd.Env, "GOMAXPROCS="+gm)
+	} else if gm := []string{"", "", "1", "2", "4"}[rapidSeedFor(p, tag)%5]; gm != "" && os.Getenv("GOMAXPROCS") == "" {
+		// schedule diversity: some packages run under few processors
+		cmd.Env = append(cmd.Env, "GOMAXPROCS="+gm)
 	}
 	var buf bytes.Buffer
 	cmd.Stdout, cmd.Stderr = &buf, &buf
